@@ -2603,6 +2603,14 @@ class KmipEngine(object):
             key_wrapping_spec = payload.key_wrapping_specification
             wrapping_method = key_wrapping_spec.wrapping_method
 
+            if managed_object.object_type in [
+                enums.ObjectType.CERTIFICATE,
+                enums.ObjectType.OPAQUE_DATA
+            ]:
+                raise exceptions.IllegalOperation(
+                    "Key wrapping is not applicable to the specified object."
+                )
+
             if wrapping_method != enums.WrappingMethod.ENCRYPT:
                 raise exceptions.OperationNotSupported(
                     "Wrapping method '{0}' is not supported.".format(
